@@ -405,13 +405,18 @@ func (g *Gen) Next(height uint32) *Op {
 		}
 		return g.approveOp(KBlackNode, strings.Join(list, "|"), "new-list")
 	})
-	add(5*w.Node, func() *Op {
+	add(7*w.Node, func() *Op {
 		var bl []string
 		for c := range g.M.Black {
 			bl = append(bl, c)
 		}
 		sort.Strings(bl)
 		if len(bl) > 0 && g.pct(90) {
+			if g.pct(40) {
+				if g.queue = g.Round(KWhiteNode, bl[0], "round-blacklisted", true); len(g.queue) > 0 {
+					return g.Next(height)
+				}
+			}
 			return g.approveOp(KWhiteNode, g.maybeVariant(bl[0]), "blacklisted")
 		}
 		if !g.pct(15) {
